@@ -25,7 +25,13 @@
                      [atoms] the atoms, [separators] the separator class between adjacent atoms,
                      [tokens] = [glue (atoms d)]: the token stream of fun.lalrpop's lexer, whose
                      regex terminals `==\s*0`, `0\s*==`, ... and `:\s*cns` merge adjacent atoms
-                     across any amount of whitespace - this is where the `-0` defect lives.
+                     across any amount of whitespace - this is where the `-0` defect lived.
+
+   The zero-literal defect of C16 (a literal 0 of an operand printed next to the comparison operator
+   of an `if`) is REPAIRED in /repo (fix commit <commit>): [d_term] models the repaired `impl Print for
+   IfC`; [old_d_term] / [old_d_prog] keep the printer as it was, for the regression lemmas of
+   Props/C16.v.  The repaired printer emits one comment (`//` + hardline, [DComment]) where nothing
+   else keeps a `0` and the operator apart.
    No proofs here (Proof/FmtProof.v). *)
 From Coq Require Import List ZArith NArith String Ascii Bool.
 From SCC Require Import Base.Sexp Lang.SynUtil Lang.FunSyn.
@@ -41,7 +47,8 @@ Inductive sym :=
 Inductive atom :=
 | AWord (s : string)              (* keyword / lower-case name / upper-case name; classified by the lexer *)
 | ANum (n : N)                    (* r"0|[1-9][0-9]*" *)
-| ASym (y : sym).
+| ASym (y : sym)
+| AComment.                        (* the empty line comment "//" together with the newline that ends it; no token *)
 
 Inductive kw := KLabel | KGoto | KExit | KIf | KElse | KPrint | KPrintln | KLet | KCase | KNew
               | KDef | KData | KCodata | KI64.
@@ -65,8 +72,9 @@ Definition sym_text (y : sym) : string :=
   | SCmp c => cmp_text c
   | SPlus => "+" | SStar => "*" | SMinus => "-" | SSlash => "/" | SPercent => "%"
   end.
+Definition comment_text : string := String "/" (String "/" (String "010" "")).
 Definition atom_text (a : atom) : string :=
-  match a with AWord s => s | ANum n => n_to_string n | ASym y => sym_text y end.
+  match a with AWord s => s | ANum n => n_to_string n | ASym y => sym_text y | AComment => comment_text end.
 
 Definition kw_text (k : kw) : string :=
   match k with
@@ -94,8 +102,9 @@ Definition word_token (s : string) : token :=
             | EmptyString => TLower s
             end
   end.
-Definition atom_token (a : atom) : token :=
-  match a with AWord s => word_token s | ANum n => TNum n | ASym y => TSym y end.
+(* the tokens of one atom standing alone: one, or none for a comment *)
+Definition atom_tokens (a : atom) : list token :=
+  match a with AWord s => [word_token s] | ANum n => [TNum n] | ASym y => [TSym y] | AComment => [] end.
 
 (* What the longest-match lexer makes of a sequence of atoms separated by whitespace: the regex
    terminals with an embedded `\s*` swallow the neighbouring atom, scanning left to right. *)
@@ -107,13 +116,14 @@ Fixpoint glue (l : list atom) : list token :=
       | ASym (SCmp c), ANum 0 :: r => TCmpZ c :: glue r
       | ANum 0, ASym (SCmp c) :: r => TZCmp c :: glue r
       | ASym SColon, AWord s :: r => if String.eqb s "cns" then TColonCns :: glue r else TSym SColon :: glue l'
-      | _, _ => atom_token a :: glue l'
+      | _, _ => atom_tokens a ++ glue l'
       end
   end.
 
 (* ---------- documents ---------- *)
 Inductive doc :=
 | DNil | DText (a : atom) | DSpace | DLine | DLine_ | DHardline
+| DComment                        (* alloc.comment("//").append(alloc.hardline()): one unit, the newline belongs to the comment *)
 | DAppend (a b : doc) | DNest (i : Z) (d : doc) | DGroup (d : doc) | DAlign (d : doc).
 Declare Scope doc_scope.
 Delimit Scope doc_scope with doc.
@@ -132,6 +142,29 @@ Fixpoint intersperse_from (acc : doc) (l : list doc) (sep : doc) : doc :=
   match l with [] => acc | d :: r => intersperse_from (acc <+ sep <+ d) r sep end.
 Definition intersperse (l : list doc) (sep : doc) : doc :=
   match l with [] => DNil | d :: r => intersperse_from (DNil <+ d) r sep end.
+
+(* ---------- where a literal 0 would touch the comparison operator of an `if` (ifc.rs) ---------- *)
+(* starts_with_zero / ends_with_zero: the first / last token of the printed term is the literal 0 *)
+Fixpoint starts_zero (t : fterm) : bool :=
+  match t with
+  | FLit 0%Z => true
+  | FOp a _ _ => starts_zero a
+  | FDtor s _ _ _ _ => starts_zero s
+  | FCase s _ _ _ => starts_zero s
+  | _ => false
+  end.
+Fixpoint ends_zero (t : fterm) : bool :=
+  match t with
+  | FLit 0%Z => true
+  | FOp _ _ b => ends_zero b
+  | FPrint _ _ next _ => ends_zero next
+  | FLet _ _ _ body _ => ends_zero body
+  | FExit a _ => ends_zero a
+  | _ => false
+  end.
+(* IfSort::mirrored_symbol; also the actions of the grammar's IfZRight .. IfGEZRight: `0 > t` is stored as Less *)
+Definition flip (c : fifsort) : fifsort :=
+  match c with FEq => FEq | FNe => FNe | FLt => FGt | FLe => FGe | FGt => FLt | FGe => FLe end.
 
 (* PrintCfg { width, allow_linebreaks, latex (irrelevant for Fun), omit_decl_sep, indent } *)
 Record pcfg := mkpcfg { pwidth : N; plinebreaks : bool; pomit_sep : bool; pindent : Z }.
@@ -214,9 +247,22 @@ Fixpoint d_term (t : fterm) : doc :=
   | FLit n => d_lit n
   | FOp a o b => DGroup (d_term a) <+ DSpace <+ d_binop o <+ DSpace <+ DGroup (d_term b)
   | FIfC s a b t e _ =>
-      let snd := match b with None => DText (ANum 0) | Some b' => d_term b' end in
-      word "if" <+ DSpace <+ d_term a <+ DSpace <+ dsym (SCmp s) <+ DSpace <+ snd <+ DSpace
-        <+ block (d_term t) <+ DSpace <+ word "else" <+ DSpace <+ block (d_term e)
+      let head := word "if" <+ DSpace in
+      let head :=
+        match b with
+        | None =>
+            if ends_zero a
+            then head <+ DText (ANum 0) <+ DSpace <+ dsym (SCmp (flip s)) <+ DSpace <+ d_term a      (* the zero on the left *)
+            else head <+ d_term a <+ DSpace <+ dsym (SCmp s) <+ DSpace <+ DText (ANum 0)
+        | Some b' =>
+            (* `.append(sep)` / `.append(sign)`: appending `nil` is the identity in `pretty` (DocBuilder::append) *)
+            let head := head <+ d_term a <+ DSpace in
+            let head := if ends_zero a then head <+ DComment else head in
+            let head := head <+ dsym (SCmp s) <+ DSpace in
+            let head := if starts_zero b' then head <+ dsym SMinus else head in
+            head <+ d_term b'
+        end in
+      head <+ DSpace <+ block (d_term t) <+ DSpace <+ word "else" <+ DSpace <+ block (d_term e)
   | FPrint nl a next _ =>
       word (if nl then "println_i64" else "print_i64") <+ DGroup (pblock (d_term a))
         <+ dsym SSemi <+ DHardline <+ DGroup (d_term next)
@@ -272,6 +318,56 @@ Definition d_decl (d : fdecl) : doc :=
   match d with FDData d => d_data d | FDCodata d => d_codata d | FDDef d => d_def d end.
 Definition d_prog (p : fprog) : doc :=
   intersperse (map d_decl (fpdecls p)) (if pomit_sep c then DLine else DLine <+ DLine).
+
+(* ---------- the printer BEFORE the repair of the zero-literal defect (regression lemmas only) ----------
+   `impl Print for IfC` printed `if fst cmp snd` / `if fst cmp 0` whatever the operands were. *)
+Fixpoint old_d_term (t : fterm) : doc :=
+  match t with
+  | FVar v _ _ => word v
+  | FLit n => d_lit n
+  | FOp a o b => DGroup (old_d_term a) <+ DSpace <+ d_binop o <+ DSpace <+ DGroup (old_d_term b)
+  | FIfC s a b t e _ =>
+      let snd := match b with None => DText (ANum 0) | Some b' => old_d_term b' end in
+      word "if" <+ DSpace <+ old_d_term a <+ DSpace <+ dsym (SCmp s) <+ DSpace <+ snd <+ DSpace
+        <+ block (old_d_term t) <+ DSpace <+ word "else" <+ DSpace <+ block (old_d_term e)
+  | FPrint nl a next _ =>
+      word (if nl then "println_i64" else "print_i64") <+ DGroup (pblock (old_d_term a))
+        <+ dsym SSemi <+ DHardline <+ DGroup (old_d_term next)
+  | FLet v vty bound body _ =>
+      word "let" <+ DSpace <+ word v <+ dsym SColon <+ DSpace <+ d_ty vty <+ DSpace <+ dsym SAssign <+ DSpace
+        <+ DGroup (old_d_term bound) <+ dsym SSemi <+ DHardline <+ DGroup (old_d_term body)
+  | FCall f args _ => word f <+ DGroup (parens (d_args (map old_d_term args)))
+  | FCtor x args _ => word x <+ DGroup (d_optargs (map old_d_term args))
+  | FDtor scrut x targs args _ =>
+      let args' := DGroup (d_optargs (map old_d_term args)) in
+      if short_scrutinee scrut
+      then old_d_term scrut <+ dsym SDot <+ word x <+ d_tyargs targs <+ args'
+      else DAlign (DNest ind (old_d_term scrut <+ DLine_ <+ dsym SDot <+ word x <+ d_tyargs targs <+ args'))
+  | FCase scrut targs cls _ =>
+      if is_dtor scrut
+      then DAlign (DNest ind (old_d_term scrut <+ DLine_ <+ dsym SDot <+ word "case" <+ d_tyargs targs <+ DSpace
+                               <+ d_clauses (map old_d_clause cls)))
+      else old_d_term scrut <+ dsym SDot <+ word "case" <+ d_tyargs targs <+ DSpace <+ d_clauses (map old_d_clause cls)
+  | FNew cls _ => word "new" <+ DSpace <+ d_clauses (map old_d_clause cls)
+  | FLabel l t _ => word "label" <+ DSpace <+ word l <+ DSpace <+ DGroup (block (old_d_term t))
+  | FGoto l t _ => word "goto" <+ DSpace <+ word l <+ DSpace <+ DGroup (pblock (old_d_term t))
+  | FExit a _ => word "exit" <+ DSpace <+ old_d_term a
+  | FParen t => pblock (old_d_term t)
+  end
+with old_d_clause (cl : fclause) : doc :=
+  match cl with
+  | FClause _ x names _ body =>
+      DNest ind (DAlign (word x <+ d_namectx names <+ DSpace <+ dsym SArrow) <+ DLine <+ DGroup (old_d_term body))
+  end.
+
+Definition old_d_def (d : fdef) : doc :=
+  DGroup (word "def" <+ DSpace <+ word (fdname d) <+ parens (d_ctx (fdctx d)) <+ dsym SColon <+ DSpace
+            <+ d_ty (fdret d) <+ DSpace)
+    <+ braces (DNest ind (DHardline <+ DGroup (old_d_term (fdbody d))) <+ DHardline).
+Definition old_d_decl (d : fdecl) : doc :=
+  match d with FDData d => d_data d | FDCodata d => d_codata d | FDDef d => old_d_def d end.
+Definition old_d_prog (p : fprog) : doc :=
+  intersperse (map old_d_decl (fpdecls p)) (if pomit_sep c then DLine else DLine <+ DLine).
 End WithCfg.
 
 (* ---------- layout-independent content of a document ---------- *)
@@ -284,6 +380,7 @@ Fixpoint flat_acc (d : doc) (acc : list item) : list item :=
   | DText a => IAtom a :: acc
   | DSpace | DLine | DHardline => ISep KSome :: acc
   | DLine_ => ISep KMaybe :: acc
+  | DComment => IAtom AComment :: ISep KMaybe :: acc      (* "//\n", then the indentation of the next line *)
   | DAppend a b => flat_acc a (flat_acc b acc)
   | DNest _ d | DGroup d | DAlign d => flat_acc d acc
   end.
@@ -310,13 +407,13 @@ Fixpoint seps_from (seen : bool) (cur : option sepk) (l : list item) : list (opt
 Definition separators (d : doc) : list (option sepk) := seps_from false None (flat d).
 
 (* ---------- which juxtapositions would change the token stream ---------- *)
-Definition wordy (a : atom) : bool := match a with AWord _ | ANum _ => true | ASym _ => false end.
+Definition wordy (a : atom) : bool := match a with AWord _ | ANum _ => true | ASym _ | AComment => false end.
 (* symbols whose text ends / starts with a character that also occurs inside a longer terminal
    ("==" "=>" "!=" "<=" ">=") or the comment opener "//" *)
 Definition op_end (a : atom) : bool :=
   match a with ASym (SAssign | SArrow | SCmp _ | SSlash) => true | _ => false end.
 Definition op_start (a : atom) : bool :=
-  match a with ASym (SAssign | SArrow | SCmp _ | SSlash) => true | _ => false end.
+  match a with ASym (SAssign | SArrow | SCmp _ | SSlash) | AComment => true | _ => false end.
 Definition sticky (a b : atom) : bool := (wordy a && wordy b) || (op_end a && op_start b).
 (* `:` directly or after blanks followed by a word that merely starts with "cns": the terminal
    r":\s*cns" would split the word; no separator helps *)
